@@ -10,14 +10,14 @@ pub fn prop() -> Prop {
     Prop {
         id: "C17",
         level: "exploration",
-        rule: "complete enumeration of all lines with start in 6 points around the origin and delta in [-9,9]^2 (quick) / [-16,16]^2 (thorough) -- all octants, horizontal, vertical, diagonal, zero length -- x stroke widths 1..=10, plus proptest tapes with end points to +-200 and widths 1..=24 (40 for the width-independent clauses). Oracle, thin line: first = start, last = end, max(|dx|,|dy|)+1 points, unit steps along the major axis, at most one along the minor axis, exact integer test 4*cross^2 <= len^2 for 'within half a pixel of the ideal line'. Thick line (pixels() of the styled line): no pixel twice, superset of the thin line, equal to it for width 1, perpendicular distance <= w/2 + 2.5 (claimed for w <= 24), projection within one pixel of the two end planes, and (for length >= 4) the span of signed offsets of the pixels whose projection is within 1 px of the midpoint, plus one, is >= w - 1. Non-trivial: neither axis-parallel nor diagonal, length >= 4 and w >= 2.",
+        rule: "complete enumeration of all lines with start in 6 points around the origin and delta in [-9,9]^2 (quick) / [-16,16]^2 (thorough) -- all octants, horizontal, vertical, diagonal, zero length -- x stroke widths 1..=10, plus proptest tapes with end points to +-200 (one case in ten to +-1000) and widths 1..=24 (40 for the width-independent clauses). Oracle, thin line: first = start, last = end, max(|dx|,|dy|)+1 points, unit steps along the major axis, at most one along the minor axis, exact integer test 4*cross^2 <= len^2 for 'within half a pixel of the ideal line'. Thick line (pixels() of the styled line): no pixel twice, superset of the thin line, equal to it for width 1, perpendicular distance <= w/2 + 2.5 (claimed for w <= 24), projection within one pixel of the two end planes, and (for length >= 4) the span of signed offsets of the pixels whose projection is within 1 px of the midpoint, plus one, is >= w - 1. Non-trivial: neither axis-parallel nor diagonal, length >= 4 and w >= 2.",
         assumptions: vec![
             "W: the distance bound w/2 + 2.5 is only asserted for widths <= 24; the algorithm's diagonal approximation grows the deviation by about w/16 (measured), so larger widths are checked for the width-independent clauses only",
             "f64 is used for the thick-line distances, with the stated tolerances (measured slack on the pinned tree >= 0.5 px)",
         ],
         subs: vec![
             Sub::enumerate("grid", grid),
-            Sub::tape("random", 10, 200_000, 3_000_000, random),
+            Sub::tape("random", 10, 200_000, 10_000_000, random),
         ],
     }
 }
@@ -141,10 +141,11 @@ fn grid(ex: &Ex) {
 }
 
 fn random(d: &mut Dec, cx: &mut Cx) -> Res {
-    let r = match d.u(0, 2) {
-        0 => 12,
-        1 => 60,
-        _ => 200,
+    let r = match d.u(0, 9) {
+        0..=2 => 12,
+        3..=5 => 60,
+        6..=8 => 200,
+        _ => 1000,
     };
     let s = Point::new(d.i(-r, r), d.i(-r, r));
     let e = match d.u(0, 9) {
